@@ -3,4 +3,5 @@ CONSTANTS
   Configs <- FixtureConfigs
   Seed = 200
   Shift = FALSE
+  NominalSize = FALSE
 INVARIANTS TypeOK QuorumSigns
